@@ -146,6 +146,10 @@ struct Case {
     /// idle family: no fillers, the database is never held
     #[serde(default)]
     idle: bool,
+    /// failing-batch family (idle pipeline): another connection holds the database's write lock
+    /// while the suffix arrives, so every batch fails with SQLITE_BUSY after the busy timeout
+    #[serde(default)]
+    external_lock: bool,
 }
 
 struct CaseResult {
@@ -239,6 +243,8 @@ fn run_case(w: &World, case: &Case) -> CaseResult {
     let fillers = if case.idle { vec![] } else { w.fillers.clone() };
     let release_after = case.release_after;
     let idle = case.idle;
+    let external_lock = case.external_lock;
+    let db_path = p.clone();
     node.run(async |nd| {
         // start the real loop on the node's real channel
         let (_t, dummy) = bounded(1, "dummy");
@@ -252,6 +258,13 @@ fn run_case(w: &World, case: &Case) -> CaseResult {
         let mut violations = vec![];
         // overload: hold the write connection, fill the five processing slots
         let mut guard = if idle { None } else { Some(nd.agent.pool().write_priority().await.unwrap()) };
+        let ext = if external_lock {
+            let c = rusqlite::Connection::open(&db_path).unwrap();
+            c.execute_batch("BEGIN IMMEDIATE").unwrap();
+            Some(c)
+        } else {
+            None
+        };
         for f in &fillers {
             offer(nd, f.clone()).await;
         }
@@ -260,13 +273,19 @@ fn run_case(w: &World, case: &Case) -> CaseResult {
                 guard.take();
             }
             offer(nd, c.clone()).await;
-            if idle {
+            if idle && !external_lock {
                 // idle pipeline: each offer is processed before the next arrives
                 settle(nd).await;
                 while nd.apply_one().await.is_some() {}
             }
         }
         guard.take();
+        if let Some(c) = ext {
+            // the batches run into the lock and fail after the connection's busy timeout (5 s)
+            settle(nd).await;
+            let _ = c.execute_batch("ROLLBACK");
+            drop(c);
+        }
         settle(nd).await;
         while nd.apply_one().await.is_some() {}
         // distinct offered changesets
@@ -390,16 +409,29 @@ fn main() {
                 releases.push(suffix.len() - 1);
             }
             for rel in releases {
-                cases.push(Case { queue_len: *q, apply_len: *a, suffix: suffix.clone(), release_after: rel, idle: false });
+                cases.push(Case { queue_len: *q, apply_len: *a, suffix: suffix.clone(), release_after: rel, idle: false, external_lock: false });
             }
         }
     }
     let overload_cases = cases.len();
     // idle family: the pipeline is never overloaded
     for suffix in seqs_over(&IDLE_ALPHABET, cli.tier.pick(3, 4) as usize) {
-        cases.push(Case { queue_len: 3, apply_len: 1, suffix, release_after: usize::MAX, idle: true });
+        cases.push(Case { queue_len: 3, apply_len: 1, suffix, release_after: usize::MAX, idle: true, external_lock: false });
     }
     let idle_cases = cases.len() - overload_cases;
+    // failing batches: the database's write lock is held by another connection (a backup, a shell)
+    // while the changesets arrive; few keys, so the periodic cache trim cannot fire here either
+    let fail_alpha = [Sym::A1, Sym::A2a, Sym::EA2, Sym::B1];
+    for suffix in seqs_over(&fail_alpha, cli.tier.pick(2, 3) as usize) {
+        let mut keys: Vec<(u8, u64)> = suffix.iter().flat_map(|s| s.keys()).collect();
+        keys.sort();
+        keys.dedup();
+        if keys.len() > 3 {
+            continue;
+        }
+        cases.push(Case { queue_len: 3, apply_len: 1, suffix, release_after: usize::MAX, idle: true, external_lock: true });
+    }
+    let failing_batch_cases = cases.len() - overload_cases - idle_cases;
     // cases are independent executions (own node, own runtime): a few threads
     let execs_a = std::sync::atomic::AtomicU64::new(0);
     let shed_a = std::sync::atomic::AtomicU64::new(0);
@@ -453,6 +485,7 @@ fn main() {
     }
     rep.set("overload_cases", overload_cases as u64);
     rep.set("idle_cases", idle_cases as u64);
+    rep.set("failing_batch_cases", failing_batch_cases as u64);
     rep.set("overload_sequences_left_out_because_the_periodic_trim_could_fire", skipped_trim_regime);
     rep.set("bounds", json!({"fillers": "5 single-seq chunks of one version of a third actor", "alphabet": format!("{ALPHABET:?}"), "idle_alphabet": format!("{IDLE_ALPHABET:?}"), "suffix_len_max": maxlen, "(processing_queue_len, apply_queue_len)": configs,
         "busy_window": "write connection held during fillers and the whole suffix (thorough: also released before the last arrival)", "reoffer_rounds": 3}));
